@@ -9,7 +9,7 @@ asserts only totality and path agreement there.
 """
 from decimal import Decimal
 
-from .dtable_model import lit_value, input_value
+from .dtable_model import lit_value, input_value, boundary_points
 
 
 class _Unspec:
@@ -205,6 +205,76 @@ def evaluate(T, tup):
     if hp == "C<":
         return min(outs), info
     return max(outs), info
+
+
+# ------------------------------------------------------------------------------------------------------------------
+# input tuples derived from the table's own boundary points (generator side, uses only the reference matcher)
+# ------------------------------------------------------------------------------------------------------------------
+
+TARGETS = ["none", "one", "several-equal", "several-different", "all"]
+
+
+def derive_tuples(src, T, k):
+    """k input tuples whose match pattern is chosen: candidates are built per target from the points that satisfy / violate
+    the entries (reference matcher), classified, and one candidate per requested pattern is taken."""
+    ni = len(T["inputs"])
+    nr = len(T["rules"])
+    pts, sat, ok = [], [], []
+    for j in range(ni):
+        p = boundary_points(T, j)
+        c = T["inputs"][j]
+        good = [allowed(c, input_value(x)) is True for x in p]
+        if any(good) and src.bool(0.9):
+            p = [x for x, g in zip(p, good) if g]
+        pts.append(p)
+        sat.append([{i for i in range(nr) if test_holds(T["rules"][i]["in"][j], input_value(x)) is True} for x in p])
+    cands = []
+    for i in range(nr):                                 # tuples built to satisfy rule i
+        for _ in range(2):
+            tup = []
+            for j in range(ni):
+                idx = [q for q in range(len(pts[j])) if i in sat[j][q]]
+                tup.append(src.choice(idx) if idx else src.int(0, len(pts[j]) - 1))
+            cands.append(tup)
+    for _ in range(2):                                  # as many rules as possible
+        tup = []
+        for j in range(ni):
+            best = max(len(s) for s in sat[j])
+            tup.append(src.choice([q for q in range(len(pts[j])) if len(sat[j][q]) == best]))
+        cands.append(tup)
+    for _ in range(2):                                  # as few as possible
+        tup = []
+        for j in range(ni):
+            worst = min(len(s) for s in sat[j])
+            tup.append(src.choice([q for q in range(len(pts[j])) if len(sat[j][q]) == worst]))
+        cands.append(tup)
+    for _ in range(12):
+        cands.append([src.int(0, len(pts[j]) - 1) for j in range(ni)])
+    buckets = {}
+    for tup in cands:
+        ms = set(range(nr))
+        for j, q in enumerate(tup):
+            ms &= sat[j][q]
+        buckets.setdefault(pattern_of(T, sorted(ms)), []).append(tup)
+    out = []
+    start = src.int(0, len(TARGETS) - 1)
+    order = TARGETS[start:] + TARGETS[:start]
+    while len(out) < k:
+        progressed = False
+        for t in order:
+            b = buckets.get(t)
+            if b and len(out) < k:
+                tup = b.pop(src.int(0, len(b) - 1))
+                out.append([pts[j][q] for j, q in enumerate(tup)])
+                progressed = True
+        if not progressed:
+            out.append([src.choice(p) for p in pts])
+    if src.bool(0.06):
+        t = list(out[-1])
+        t[src.int(0, ni - 1)] = None
+        out[-1] = t
+    return out
+
 
 
 # ------------------------------------------------------------------------------------------------------------------
